@@ -7,8 +7,9 @@ Encoding: fields `|`, records `/`, record components `;`, sub-records `&`, sub-c
 a string is `s` followed by its code points (`s 97 98`; the empty string is `s`), so that the empty list (empty
 text) and the list holding one empty string differ.
 
-  targets <targets>|<edges>             target = id;kind;files;priv;srcs   kind = b|c|p|o     edge = rule;outs;ins
-        -> OK|<agree>|<ff,ff,…>|<claimed>        per target: files-exact bit, sources-exact bit
+  targets <targets>|<edges>             target = id;kind;files;priv;srcs;groups   kind = b|c|p|o   group = lang:compiler:params:srcs&…
+                                        edge = rule;outs;ins;exe;args
+        -> OK|<agree>|<fsg,fsg,…>|<claimed>      per target: files-exact, sources-exact, groups-exact bits
   tests <intro>|<ser>|<target ids>      intro = name;cmd;k:v&k:v;workdir;timeout;suite;par;prio;proto;depends;extra
                                         ser   = name;fname;args;m:name:vals:sep&…;workdir;timeout;suite;par;prio;proto;depends;extra
         -> OK|<agree>|<n intro>,<n ser>|<bit per position>|<depends-known>
@@ -34,14 +35,21 @@ def bits (l : List Bool) : String := String.join (l.map boolStr)
 def decKind : String → TKind
   | "b" => .build | "c" => .custom | "p" => .phony | _ => .other
 
+def decGroup (r : String) : Option Group :=
+  match r.splitOn ":" with
+  | [l, c, p, s] => some { language := decodeStr l, compiler := decodeStrList c, params := decodeStrList p, srcs := decodeStrList s }
+  | _ => none
+
 def decTarget (r : String) : Option Target :=
   match comps r with
-  | [i, k, f, p, s] => some { id := decodeStr i, kind := decKind k, files := decodeStrList f, priv := decodeStr p, srcs := decodeStrList s }
+  | [i, k, f, p, s, g] =>
+    (subs g).mapM decGroup |>.map (fun gs =>
+      { id := decodeStr i, kind := decKind k, files := decodeStrList f, priv := decodeStr p, srcs := decodeStrList s, groups := gs })
   | _ => none
 
 def decEdge (r : String) : Option Edge :=
   match comps r with
-  | [ru, o, i] => some { rule := decodeStr ru, outs := decodeStrList o, ins := decodeStrList i }
+  | [ru, o, i, x, a] => some { rule := decodeStr ru, outs := decodeStrList o, ins := decodeStrList i, exe := decodeStrList x, args := decodeStrList a }
   | _ => none
 
 def decPair (r : String) : Option (Str × Str) :=
@@ -116,7 +124,7 @@ def handle (cmd : String) (fs : List String) : String :=
   | "targets", [t, e] =>
     match (recs t).mapM decTarget, (recs e).mapM decEdge with
     | some ts, some es =>
-      let per := ts.map (fun t => boolStr (checkFiles t es) ++ boolStr (checkSources t es))
+      let per := ts.map (fun t => boolStr (checkFiles t es) ++ boolStr (checkSources t es) ++ boolStr (checkGroups t es))
       s!"OK|{boolStr (checkTargets ts es)}|{",".intercalate per}|{boolStr (checkClaimed ts es)}"
     | _, _ => "bad-op"
   | "tests", [i, s, ids] =>
